@@ -34,9 +34,11 @@ type fakeDB struct {
 	meta *fakeMetaDB
 
 	// what the leaf's (captured) pipeline was started with
-	gotQuery    *stmt.Query
-	gotMetadata *stmt.MetricMetadata
-	captured    int
+	gotQuery      *stmt.Query
+	gotMetadata   *stmt.MetricMetadata
+	captured      int
+	completed     int
+	completePanic string
 }
 
 func (f *fakeDB) MetaDB() index.MetricMetaDatabase { return f.meta }
